@@ -55,8 +55,10 @@ class Gen:
             elif c < 0.64:
                 st.append(S('net', dir='g2c', i=rng.randrange(4), act=rng.choice(['deliver', 'deliver', 'deliver', 'lose', 'dup'])))
             elif c < 0.78:
-                st.append(S('inject', svc='TunnelRes', ch=rng.choice(['own', 'own', 'other']), rel=rng.choice([-2, -1, 0, 0, 1]),
-                            st=rng.choice([0, 0, 0, 0x29, 0x21, rng.randrange(1, 256)])))   # (every status code, also unassigned ones)
+                # (every status code, also unassigned ones; any foreign channel; any sequence number)
+                st.append(S('inject', svc='TunnelRes', ch=rng.choice(['own', 'own', 'other', 'off']), n=rng.randrange(1, 256),
+                            rel=rng.choice([-2, -1, 0, 0, 1, rng.randrange(2, 255)]),
+                            st=rng.choice([0, 0, 0, 0x29, 0x21, rng.randrange(1, 256)])))
             elif c < 0.93:
                 st.append(S('adv', d=odd(rng, rng.choice([R // 2, R, R, 2 * R, T // 2]))))
             else:
@@ -104,8 +106,8 @@ class Gen:
         for _ in range(n):
             c = rng.random()
             if c < 0.55:
-                st.append(S('inject', svc='TunnelReq', ch=rng.choice(['own'] * 5 + ['other']),
-                            rel=rng.choice([0, 0, 0, 0, 0, -1, -1, 1, 2, -2, 3, 128]), p=self.newpid()))
+                st.append(S('inject', svc='TunnelReq', ch=rng.choice(['own'] * 5 + ['other', 'off']), n=rng.randrange(1, 256),
+                            rel=rng.choice([0, 0, 0, 0, 0, -1, -1, 1, 2, -2, 3, 128, rng.randrange(4, 253)]), p=self.newpid()))
             elif c < 0.75:
                 st.append(S('recv'))
             elif c < 0.80:
@@ -248,6 +250,20 @@ class Gen:
         return dict(run=run, cfg=cfg, steps=st, tag='close-in-reconnect')
 
     # ---- C09: heartbeat / reconnect ------------------------------------------
+    def hb_foreign(self, run, status):
+        """C09: while a heartbeat exchange is pending (the gateway stays silent), connection-state responses, disconnect
+        requests and disconnect responses for a FOREIGN channel arrive with status `status`: none of them may end the exchange,
+        fail it or tear the tunnel down - the client keeps repeating its request every R and reconnects at the timeout."""
+        rng = self.rng
+        R, T, H = rng.choice([(2_000, 6_001, 8_003), (1_000, 5_003, 20_011), (2_000, 6_001, 3_001)])
+        st = [S('connect'), S('gwpolicy', s='hb', act='silent', st=0x21), S('adv', d=odd(rng, H)), S('flush', n=2)]
+        for svc in rng.sample(['ConnStateRes', 'ConnStateRes', 'DiscReq', 'DiscRes'], 3):
+            st += [S('inject', svc=svc, ch=rng.choice(['other', 'off']), n=rng.randrange(1, 256), st=status), S('flush', n=2),
+                   S('adv', d=odd(rng, R // 2)), S('flush', n=2)]
+        st += [S('gwpolicy', s='hb', act='ok'), S('adv', d=odd(rng, T)), S('flush', n=3), S('adv', d=odd(rng, H)), S('flush', n=2)]
+        st += clean_send(self.newpid())
+        return dict(run=run, cfg=dict(R=R, T=T, H=H), steps=st, tag='hb-foreign')
+
     def heartbeat(self, run, n=40):
         rng = self.rng
         R, T, H = rng.choice([(500_000, 10_000_000, 10_000_000), (2_000, 6_001, 8_003), (2_000, 4_001, 9_007),
@@ -262,14 +278,15 @@ class Gen:
                 st.append(S('adv', d=odd(rng, rng.choice([R, H, T]))))
             elif c < 0.52:
                 st.append(S('gwpolicy', s='hb', act=rng.choice(['ok', 'ok', 'silent', 'err', 'foreign']),
-                            st=rng.choice([0x21, 0x26, 0x27, 0x29, 0xff])))
+                            st=rng.choice([0x21, 0x26, 0x27, 0x29, 0xff, rng.randrange(1, 256)])))   # (every non-zero status code)
             elif c < 0.58:
                 # (a refusal carries any status code, assigned or not)
                 st.append(S('gwpolicy', s='conn', act=rng.choice(['ok', 'ok', 'ok', 'busy', 'refuse', 'silent']), st=rng.choice([0, 0x22, 0x23, rng.randrange(1, 256)])))
             elif c < 0.63:
                 st.append(S('gwpolicy', s='nextchan', n=rng.choice([1, 2, 3, 1, 0, 255])))
             elif c < 0.70:
-                st.append(S('inject', svc=rng.choice(['DiscReq', 'DiscRes', 'ConnStateRes']), ch='other', st=rng.choice([0, 0x21])))
+                st.append(S('inject', svc=rng.choice(['DiscReq', 'DiscRes', 'ConnStateRes']), ch=rng.choice(['other', 'off']), n=rng.randrange(1, 256),
+                            st=rng.choice([0, 0x21, rng.randrange(1, 256)])))
             elif c < 0.75:
                 st += [S('gwgiveup'), S('flush', n=3)]
             elif c < 0.78:
